@@ -1524,8 +1524,10 @@ func init() {
 // concurrently.
 
 type unschedIn struct {
-	Scope string `json:"scope"` // "root" | "ns"
+	Rep   int    `json:"rep,omitempty"` // repetition number (thorough tier, the racing cases)
+	Scope string `json:"scope"`         // "root" | "ns"
 	Then  string `json:"then"`  // "nothing" | "scheduled" (the pod gets placed after 1 s) | "deleted" (after 1 s) | "touched" (updated after 1 s, still unplaced) |
+	// "deadline" / "cancel-early" (the watch ends 2 s in, by the context's own deadline / by cancel, the re-check still pending) |
 	// "ns-deleted" (the watched namespace of the pod disappears after 1 s, before the pod does: its informers are stopped while
 	// the delayed re-check of the pod is still pending; the watcher itself keeps running until cancelled)
 }
@@ -1587,6 +1589,12 @@ func runUnschedCase(in unschedIn) (out unschedOut) {
 	}
 	ctx, cancel := context.WithCancel(context.Background())
 	defer cancel()
+	if in.Then == "deadline" {
+		// the caller's context ends by its own deadline (not by cancel) while the delayed re-check is pending
+		var c2 context.CancelFunc
+		ctx, c2 = context.WithTimeout(ctx, 2*time.Second)
+		defer c2()
+	}
 	w := watcher.NewDefaultStatusWatcher(cl.client, cl.mapper)
 	ch := w.Watch(ctx, ids, watcher.Options{RESTScopeStrategy: strat})
 	var mu sync.Mutex
@@ -1625,6 +1633,28 @@ func runUnschedCase(in unschedIn) (out unschedOut) {
 			_ = tracker.Update(kPod.gvr(), p2, "ns1")
 		})
 		time.Sleep(time.Second)
+	}
+	if in.Then == "deadline" || in.Then == "cancel-early" {
+		// the watch ends inside the schedule window: the pending re-check must die with it (no event, no send on a closed channel);
+		// two more seconds are watched for a late effect
+		time.Sleep(time.Second)
+		if in.Then == "cancel-early" {
+			cancel()
+		}
+		select {
+		case <-done:
+			out.Closed = true
+		case <-time.After(6 * time.Second):
+		}
+		time.Sleep(2 * time.Second)
+		if obj, err := tracker.Get(kPod.gvr(), "ns1", "a"); err == nil {
+			if u, ok := obj.(*unstructured.Unstructured); ok {
+				out.Final = libStatus(u)
+			}
+		}
+		mu.Lock()
+		defer mu.Unlock()
+		return out
 	}
 	// past the schedule window (counted from the first report), with a margin
 	time.Sleep(status.ScheduleWindow + 3*time.Second - time.Second)
@@ -1671,7 +1701,7 @@ func runUnschedIsolated(in unschedIn) unschedOut {
 	return out
 }
 
-func genUnsched(out *proto.Out, _ *proto.Rng, _ string) {
+func genUnsched(out *proto.Out, _ *proto.Rng, tier string) {
 	var ins []unschedIn
 	for _, scope := range []string{"root", "ns"} {
 		for _, then := range []string{"nothing", "scheduled", "deleted", "touched"} {
@@ -1679,6 +1709,15 @@ func genUnsched(out *proto.Out, _ *proto.Rng, _ string) {
 		}
 	}
 	ins = append(ins, unschedIn{Scope: "ns", Then: "ns-deleted"})
+	for _, scope := range []string{"root", "ns"} {
+		ins = append(ins, unschedIn{Scope: scope, Then: "deadline"}, unschedIn{Scope: scope, Then: "cancel-early"})
+		if tier == "thorough" {
+			// the end of the watch races with the pending re-check: repeated, the short cases cost 5 s each and run concurrently
+			for rep := 1; rep <= 8; rep++ {
+				ins = append(ins, unschedIn{Scope: scope, Then: "deadline", Rep: rep}, unschedIn{Scope: scope, Then: "cancel-early", Rep: rep})
+			}
+		}
+	}
 	res := make([]unschedOut, len(ins))
 	var wg sync.WaitGroup
 	for i := range ins {
